@@ -41,6 +41,7 @@ type vfC18Fwd struct {
 	Op      byte
 	Stream  int
 	Flag    bool
+	Flags   byte // the frame's flags byte as sent to the driver
 	Wire    []byte
 	Logical []byte
 }
@@ -127,7 +128,7 @@ func (p *vfC18Proxy) DialHost(ctx context.Context, host *HostInfo) (*DialedHost,
 			nmu.Lock()
 			neg := negotiated
 			nmu.Unlock()
-			rec := vfC18Fwd{Conn: ci, Op: f.Op, Stream: f.Stream, Logical: f.Body, Wire: f.Body}
+			rec := vfC18Fwd{Conn: ci, Op: f.Op, Stream: f.Stream, Logical: f.Body, Wire: f.Body, Flags: f.Flags}
 			raw := f.Raw
 			p.mu.Lock()
 			do := neg != "" && f.Flags&0x01 == 0 && p.want(f.Stream)
@@ -135,7 +136,7 @@ func (p *vfC18Proxy) DialHost(ctx context.Context, host *HostInfo) (*DialedHost,
 			if do {
 				if cp := vfC18Compressor(neg); cp != nil {
 					if enc, err := cp.Encode(f.Body); err == nil {
-						rec.Flag, rec.Wire = true, enc
+						rec.Flag, rec.Wire, rec.Flags = true, enc, f.Flags|0x01
 						raw = vfEncodeFrame(f.Version, f.Flags|0x01, f.Stream, f.Op, enc)
 					}
 				}
@@ -152,6 +153,94 @@ func (p *vfC18Proxy) DialHost(ctx context.Context, host *HostInfo) (*DialedHost,
 }
 
 type vfC18PushVec map[string]interface{}
+
+// ---- response flag combinations: the prefixes a response carries when the tracing (0x02), warning (0x08) and
+// custom-payload (0x04) flags are set are part of the BODY - <tracing id><warnings><custom payload><message>
+// (native protocol v4, section 2.2) - and therefore lie inside the compressed block of a compressed frame.
+
+type vfC18FlagSpec struct {
+	Kind    string // rows | void | prep | batch
+	T, W, P bool
+}
+
+func (fs vfC18FlagSpec) table() string {
+	s := "ks.fl_" + fs.Kind + "_"
+	if fs.T {
+		s += "t"
+	}
+	if fs.W {
+		s += "w"
+	}
+	if fs.P {
+		s += "p"
+	}
+	return s + "_x"
+}
+
+func vfC18ParseFlagSpec(stmt string) (fs vfC18FlagSpec, ok bool) {
+	i := strings.Index(stmt, "ks.fl_")
+	if i < 0 {
+		return fs, false
+	}
+	parts := strings.SplitN(stmt[i+len("ks.fl_"):], "_", 3)
+	if len(parts) < 3 {
+		return fs, false
+	}
+	fs.Kind = parts[0]
+	fs.T, fs.W, fs.P = strings.Contains(parts[1], "t"), strings.Contains(parts[1], "w"), strings.Contains(parts[1], "p")
+	return fs, true
+}
+
+func (fs vfC18FlagSpec) traceID() []byte {
+	id := make([]byte, 16)
+	copy(id, "T:"+fs.table())
+	return id
+}
+func (fs vfC18FlagSpec) warnings() []string {
+	return []string{"warning one for " + fs.table(), "w2"}
+}
+func (fs vfC18FlagSpec) payload() map[string][]byte {
+	return map[string][]byte{"pk": []byte("payload of " + fs.table())}
+}
+
+// prefix builds the frame flags and the body prefix of a response.
+func (fs vfC18FlagSpec) prefix() (flags byte, pre []byte) {
+	w := &vfW{}
+	if fs.T {
+		flags |= 0x02
+		w.Raw(fs.traceID())
+	}
+	if fs.W {
+		flags |= 0x08
+		w.StringList(fs.warnings())
+	}
+	if fs.P {
+		flags |= 0x04
+		w.Short(1).String("pk").Bytes(fs.payload()["pk"])
+	}
+	return flags, w.b
+}
+
+type vfC18Tracer struct {
+	mu  sync.Mutex
+	ids [][]byte
+}
+
+func (t *vfC18Tracer) Trace(id []byte) {
+	t.mu.Lock()
+	t.ids = append(t.ids, append([]byte(nil), id...))
+	t.mu.Unlock()
+}
+func (t *vfC18Tracer) has(id []byte) bool {
+	t.mu.Lock()
+	defer t.mu.Unlock()
+	for _, x := range t.ids {
+		if bytes.Equal(x, id) {
+			return true
+		}
+	}
+	return false
+}
 
 func vfC18RunPush(c vfC18PushCase, emit func(vfC18PushVec)) {
 	cl := &vfCluster{Partitioner: "org.apache.cassandra.dht.Murmur3Partitioner", Version: "3.11.4"}
@@ -184,11 +273,34 @@ func vfC18RunPush(c vfC18PushCase, emit func(vfC18PushVec)) {
 			prepMu.Lock()
 			prepared["id:"+q.Stmt] = q.Stmt
 			prepMu.Unlock()
+			if fs, ok := vfC18ParseFlagSpec(q.Stmt); ok && fs.Kind == "prep" {
+				fl, pre := fs.prefix()
+				nc.ReplyFlags(f, fl, vfOpResult, append(pre, vfPreparedBody(f.Version, []byte("id:"+q.Stmt), "ks", "tbl", strings.Count(q.Stmt, "?"), []vfCol{{"v", vfTVarchar}})...))
+				return true
+			}
+			return false
+		case vfOpBatch:
+			for _, st := range q.BatchStmts {
+				if fs, ok := vfC18ParseFlagSpec(st); ok {
+					fl, pre := fs.prefix()
+					nc.ReplyFlags(f, fl, vfOpResult, append(pre, vfVoidBody()...))
+					return true
+				}
+			}
 			return false
 		case vfOpExecute:
 			prepMu.Lock()
 			stmt := prepared[string(q.PreparedID)]
 			prepMu.Unlock()
+			if fs, ok := vfC18ParseFlagSpec(stmt); ok && (fs.Kind == "rows" || fs.Kind == "void") {
+				fl, pre := fs.prefix()
+				msg := rows
+				if fs.Kind == "void" {
+					msg = vfVoidBody()
+				}
+				nc.ReplyFlags(f, fl, vfOpResult, append(pre, msg...))
+				return true
+			}
 			switch {
 			case strings.Contains(stmt, "ks.bigsame"):
 				nc.Reply(f, vfOpResult, bigSame)
@@ -225,7 +337,7 @@ func vfC18RunPush(c vfC18PushCase, emit func(vfC18PushVec)) {
 		}
 		for _, f := range frames {
 			neg := c.Negotiated
-			emit(vfC18PushVec{"k": "srv", "negotiated": neg, "stage": stage, "kind": c.Mode, "flag": f.Flag, "op": int(f.Op), "stream": f.Stream,
+			emit(vfC18PushVec{"k": "srv", "negotiated": neg, "stage": stage, "kind": c.Mode, "flag": f.Flag, "fflags": int(f.Flags), "op": int(f.Op), "stream": f.Stream,
 				"body": vfC18Ints(f.Wire), "logical": vfC18Ints(f.Logical)})
 			emit(vfC18PushVec{"k": "resp", "negotiated": neg, "stage": fmt.Sprintf("%s:op%d", stage, f.Op), "kind": c.Mode, "flag": f.Flag,
 				"body": vfC18Ints(f.Wire), "outcome": outcome, "detail": detail})
@@ -287,6 +399,72 @@ func vfC18RunPush(c vfC18PushCase, emit func(vfC18PushVec)) {
 	if c.Negotiated != "vfxor" && c.Mode != "alt" && c.Mode != "events" { // the xor stand-in does not compress: nothing to learn, and 8 KiB xor bodies are slow in TLC
 		bigStep("rows-250-identical", "bigsame", same)
 		bigStep("rows-250-counted", "bigcounted", counted)
+	}
+
+	// flag combinations on every result kind: what the prefixes carry must reach the caller
+	if c.Mode != "events" {
+		var specs []vfC18FlagSpec
+		if c.Proto >= 4 {
+			for m := 0; m < 8; m++ {
+				specs = append(specs, vfC18FlagSpec{Kind: "rows", T: m&1 != 0, W: m&2 != 0, P: m&4 != 0})
+			}
+			for _, k := range []string{"void", "prep", "batch"} {
+				for _, m := range []int{1, 3, 6, 7} {
+					specs = append(specs, vfC18FlagSpec{Kind: k, T: m&1 != 0, W: m&2 != 0, P: m&4 != 0})
+				}
+			}
+		} else {
+			for _, k := range []string{"rows", "void", "prep", "batch"} {
+				specs = append(specs, vfC18FlagSpec{Kind: k, T: true})
+			}
+		}
+		for _, fs := range specs {
+			mark := px.snapshot()
+			tr := &vfC18Tracer{}
+			var err error
+			var warns []string
+			var pay map[string][]byte
+			val := ""
+			switch fs.Kind {
+			case "rows", "void", "prep":
+				stmt := "SELECT v FROM " + fs.table() + " WHERE k = ?"
+				iter := s.Query(stmt, 1).Trace(tr).Iter()
+				if fs.Kind == "rows" {
+					iter.Scan(&val)
+				}
+				warns, pay = iter.Warnings(), iter.GetCustomPayload()
+				err = iter.Close()
+			case "batch":
+				b := s.NewBatch(UnloggedBatch)
+				b.Query("INSERT INTO " + fs.table() + " (k) VALUES (1)")
+				b.Trace(tr)
+				iter := s.executeBatch(b)
+				warns, pay = iter.Warnings(), iter.GetCustomPayload()
+				err = iter.Close()
+			}
+			o, d := oc(err)
+			if o == "value" {
+				var miss []string
+				if fs.Kind == "rows" && val != "forty-two" {
+					miss = append(miss, fmt.Sprintf("row value %q", val))
+				}
+				if fs.T && !tr.has(fs.traceID()) {
+					miss = append(miss, fmt.Sprintf("tracing id not delivered (tracer got %q)", tr.ids))
+				}
+				if fs.Kind != "prep" { // warnings / payload of a PREPARE answer are not exposed by the driver
+					if fs.W && strings.Join(warns, "|") != strings.Join(fs.warnings(), "|") {
+						miss = append(miss, fmt.Sprintf("warnings %q", warns))
+					}
+					if fs.P && !bytes.Equal(pay["pk"], fs.payload()["pk"]) {
+						miss = append(miss, fmt.Sprintf("custom payload %q", pay))
+					}
+				}
+				if len(miss) > 0 {
+					o, d = "wrong-value", strings.Join(miss, "; ")
+				}
+			}
+			report("flags-"+strings.TrimPrefix(strings.TrimSuffix(fs.table(), "_x"), "ks.fl_"), mark, o, d)
+		}
 	}
 
 	mark = px.snapshot()
